@@ -1,0 +1,10 @@
+//go:build verif
+
+package queue
+
+// VerifStopRequested tells the verification harness (property C17) whether the stop request has
+// reached this queue: the context its worker looks at is cancelled. A queue without a context
+// (never given one) has not heard anything.
+func (q *TaskQueue) VerifStopRequested() bool {
+	return q.ctx != nil && q.ctx.Err() != nil
+}
